@@ -18,5 +18,6 @@ INVARIANT InvShapeConsistent
 INVARIANT InvAtLeastOne
 INVARIANT InvFrozenFull
 INVARIANT InvOutputFull
+INVARIANT InvZeroPreserved
 INVARIANT InvCostMatchesExport
 INVARIANT InvMonotone
